@@ -92,6 +92,68 @@ Theorem C07_table_inv_delete_renumbers :
 Proof. exact @hash_delete_inv. Qed.
 Print Assumptions C07_table_inv_delete_renumbers.
 
+Theorem C07_table_inv_bucket_order_irrelevant :
+  forall (hashf : list Base.byte -> Z -> Z) (names : list (list Base.byte)) 
+           (hs : Z) (bs bs' : list (list nat)),
+         Forall2 (Permutation.Permutation (A:=nat)) bs bs' ->
+         tab_inv hashf names {| Meta.nt_hsize := hs; Meta.nt_tab := Some bs |} ->
+         tab_inv hashf names {| Meta.nt_hsize := hs; Meta.nt_tab := Some bs' |}.
+Proof. exact @tab_inv_bucket_order_irrelevant. Qed.
+Print Assumptions C07_table_inv_bucket_order_irrelevant.
+
+Theorem C07_lookup_any_bucket_order :
+  forall hashf : list Base.byte -> Z -> Z,
+         (forall (nm : list Base.byte) (hs : Z), hs_ok hs -> (0 <= hashf nm hs < hs)%Z) ->
+         forall (names : list (list Base.byte)) (hs : Z) (bs bs' : list (list nat))
+           (nm : list Base.byte),
+         Forall2 (Permutation.Permutation (A:=nat)) bs bs' ->
+         tab_inv hashf names {| Meta.nt_hsize := hs; Meta.nt_tab := Some bs |} ->
+         NoDup names ->
+         Meta.hfind hashf names {| Meta.nt_hsize := hs; Meta.nt_tab := Some bs' |} nm =
+         Some (Meta.find_name nm names).
+Proof. exact @lookup_any_bucket_order. Qed.
+Print Assumptions C07_lookup_any_bucket_order.
+
+Theorem C07_replace_then_delete_any_order :
+  forall hashf : list Base.byte -> Z -> Z,
+         (forall (nm : list Base.byte) (hs : Z), hs_ok hs -> (0 <= hashf nm hs < hs)%Z) ->
+         forall (names : list (list Base.byte)) (t : Meta.ntab) (i : nat) 
+           (old new : list Base.byte) (j : nat) (nm : list Base.byte),
+         tab_inv hashf names t ->
+         nth_error names i = Some old ->
+         nth_error (Meta.set_nth i names new) j = Some nm ->
+         exists t1 t2 : Meta.ntab,
+           Meta.hash_replace hashf t i old new = Some t1 /\
+           Meta.hash_delete hashf t1 nm j = Some (Some t2) /\
+           tab_inv hashf (Meta.del_nth j (Meta.set_nth i names new)) t2 /\
+           (NoDup (Meta.del_nth j (Meta.set_nth i names new)) ->
+            forall q : list Base.byte,
+            Meta.hfind hashf (Meta.del_nth j (Meta.set_nth i names new)) t2 q =
+            Some (Meta.find_name q (Meta.del_nth j (Meta.set_nth i names new)))).
+Proof. exact @replace_then_delete_any_order. Qed.
+Print Assumptions C07_replace_then_delete_any_order.
+
+Theorem C07_hash_delete_tail_walk_refuted :
+  let names :=
+           (97%Z :: 48%Z :: nil)
+           :: (97%Z :: 49%Z :: nil)
+              :: (97%Z :: 50%Z :: nil) :: (97%Z :: 51%Z :: nil) :: (97%Z :: 52%Z :: nil) :: nil in
+         let names1 := Meta.set_nth 1 names (122%Z :: 49%Z :: nil) in
+         let t :=
+           {| Meta.nt_hsize := 1; Meta.nt_tab := Some ((0 :: 1 :: 2 :: 3 :: 4 :: nil) :: nil) |} in
+         exists t1 : Meta.ntab,
+           Meta.hash_replace Meta.bernstein t 1 (97%Z :: 49%Z :: nil) (122%Z :: 49%Z :: nil) =
+           Some t1 /\
+           (exists t2 : Meta.ntab,
+              Meta.hash_delete Meta.bernstein t1 (97%Z :: 51%Z :: nil) 3 = Some (Some t2) /\
+              Meta.hfind Meta.bernstein (Meta.del_nth 3 names1) t2 (97%Z :: 52%Z :: nil) =
+              Some (Some 3)) /\
+           (exists t2' : Meta.ntab,
+              hash_delete_tail_walk Meta.bernstein t1 (97%Z :: 51%Z :: nil) 3 = Some (Some t2') /\
+              Meta.hfind Meta.bernstein (Meta.del_nth 3 names1) t2' (97%Z :: 52%Z :: nil) = None).
+Proof. exact @hash_delete_tail_walk_refuted. Qed.
+Print Assumptions C07_hash_delete_tail_walk_refuted.
+
 Theorem C07_table_inv_populate :
   forall hashf : list Base.byte -> Z -> Z,
          (forall (nm : list Base.byte) (hs : Z), hs_ok hs -> (0 <= hashf nm hs < hs)%Z) ->
